@@ -1,6 +1,7 @@
 package sim
 
 import (
+	"sync"
 	"bytes"
 	"context"
 	"errors"
@@ -47,6 +48,8 @@ type FaultStore struct {
 	BeforeCall func(kind string, idx int)
 	Disabled bool // when true, faults are ignored (fault-free suffix) but calls still counted
 	CallLog []string
+	Locked  bool // CONC engine: bookkeeping is shared by task goroutines
+	mu      sync.Mutex
 }
 
 func NewFaultStore(inner litestream.ReplicaClient, faults []Fault) *FaultStore {
@@ -58,6 +61,10 @@ func NewFaultStore(inner litestream.ReplicaClient, faults []Fault) *FaultStore {
 }
 
 func (s *FaultStore) begin(kind string) (int, *Fault) {
+	if s.Locked {
+		s.mu.Lock()
+		defer s.mu.Unlock()
+	}
 	idx := s.Calls
 	s.Calls++
 	s.Kinds[kind]++
@@ -96,6 +103,10 @@ func (s *FaultStore) begin(kind string) (int, *Fault) {
 }
 
 func (s *FaultStore) end(kind string, idx int, err error) {
+	if s.Locked {
+		s.mu.Lock()
+		defer s.mu.Unlock()
+	}
 	if len(s.CallLog) < 4000 {
 		e := "ok"
 		if err != nil {
@@ -108,7 +119,13 @@ func (s *FaultStore) end(kind string, idx int, err error) {
 	}
 }
 
-func (s *FaultStore) fire(kind string) { s.Hit[kind]++ }
+func (s *FaultStore) fire(kind string) {
+	if s.Locked {
+		s.mu.Lock()
+		defer s.mu.Unlock()
+	}
+	s.Hit[kind]++
+}
 
 func (s *FaultStore) Type() string { return s.Inner.Type() }
 func (s *FaultStore) Init(ctx context.Context) error { return s.Inner.Init(ctx) }
@@ -201,6 +218,10 @@ func (s *FaultStore) OpenLTXFile(ctx context.Context, level int, minTXID, maxTXI
 }
 
 func (s *FaultStore) archive(level int, minTXID, maxTXID ltx.TXID, data []byte, idx int, created time.Time) {
+	if s.Locked {
+		s.mu.Lock()
+		defer s.mu.Unlock()
+	}
 	k := FileKey{level, minTXID, maxTXID}
 	e := &ArchEntry{Key: k, Data: data, Event: idx, Created: created}
 	s.Arch[k] = append(s.Arch[k], e)
@@ -246,8 +267,14 @@ func (s *FaultStore) DeleteLTXFiles(ctx context.Context, a []*ltx.FileInfo) erro
 	}
 	err := s.Inner.DeleteLTXFiles(ctx, a)
 	if err == nil {
+		if s.Locked {
+			s.mu.Lock()
+		}
 		for _, info := range a {
 			s.Deleted = append(s.Deleted, FileKey{info.Level, info.MinTXID, info.MaxTXID})
+		}
+		if s.Locked {
+			s.mu.Unlock()
 		}
 		if f != nil && f.Kind == "fail_after" {
 			s.fire("delete_fail_after")
